@@ -25,6 +25,8 @@ QBad(kind, o, x) ==
            IF o.split # x.split THEN "split"
            ELSE IF o.cat # x.cat THEN "categories"
            ELSE IF x.eqdef /\ o.eq # x.eq THEN "equilibria"
+           ELSE IF ~x.eqdef /\ ~(/\ IsInj(o.eq) /\ ToSet(o.eq) \subseteq ToSet(x.eq)
+                                /\ { o.eq[k][1] : k \in DOMAIN o.eq } = ToSet(x.eqfw)) THEN "equilibria-open"
            ELSE IF o.part # x.part THEN "participation"
            ELSE IF o.eff # x.eff THEN "effect" ELSE ""
       [] kind = "dot" ->
